@@ -28,6 +28,8 @@ GUARDS = [
     ("MC_Codec_guard_dec_roundtrip.cfg", "LawDecRoundTrip"),
     ("MC_Codec_guard_dec_bigagrees.cfg", "LawDecBigAgrees"),
     ("MC_Codec_guard_dec_bigroundtrip.cfg", "LawDecBigRoundTrip"),
+    ("MC_Codec_guard_decloc_LawDecLocRoundTrip.cfg", "LawDecLocRoundTrip"),
+    ("MC_Codec_guard_decloc_LawDecLocShape.cfg", "LawDecLocShape"),
 ]
 
 NARROW_FN = {"locale": "narrow_locale", "env": "narrow", "fcppt_locale": "from_std_wstring_locale", "fcppt": "from_std_wstring"}
@@ -103,6 +105,8 @@ def classes_of(ctx, rec):
         ctx.count_class((f, rec["T"], rec["e"], min(len(rec["bs"]), rec["n"] + 1) - rec["n"]))
     elif f == "dec":
         ctx.count_class((f, rec["T"], rec["api"], rec["x"]["s"], len(rec["text"])))
+    elif f == "dec_loc":
+        ctx.count_class((f, rec["T"], rec["api"], rec["loc"], rec["glob"], rec["x"]["s"], len(rec["text"])))
     elif f == "dec_over":
         ctx.count_class((f, rec["T"], rec["ch"], rec["ok"], len(rec["text"])))
     elif f == "enum":
@@ -135,6 +139,9 @@ def function_names(rec, why):
         return out
     if f == "dec":
         return [(DEC_FN.get(rec["api"], "output?") + "/extract_from_string", sorted(why), "")]
+    if f == "dec_loc":
+        return [("output_to_string_locale/extract_from_string_locale", sorted(why),
+                 "(%s, passed locale %s, global locale %s)" % (rec["api"], rec["loc"], rec["glob"]))]
     if f == "dec_over":
         return [("extract_from_string", sorted(why), "")]
     if f == "io":
@@ -209,7 +216,7 @@ def model_checks(ctx, thorough):
 
     def guard(g):
         cfg, inv = g
-        r = vlib.tlc("MCCodec", cfg, workers=2, timeout=1500, tag="MCCodec_" + cfg, xmx="1500m")
+        r = vlib.tlc("MCCodec", cfg, workers=2, timeout=1500, tag="MCCodec_" + cfg, xmx="1500m", expect=inv)
         if inv not in r.invariant_violated:
             raise vlib.Infra("vacuity guard: %s did not violate %s" % (cfg, inv))
         return {"cfg": cfg, "violates": inv}
